@@ -1,6 +1,6 @@
 // rainvc:pkg internal/magnet
 // rainvc:function internal/magnet.(*Magnet).String / internal/magnet.New
-// rainvc:bound names: every string of length 0..3 over the 10 characters [a ' ' + & = % # / ? é]; trackers: every assignment of 0..3 tiers with 1..2 URLs each drawn from 4 URLs containing query and escape characters; peers: 0..2 host:port strings
+// rainvc:bound names: every string of length 0..3 over the 10 characters [a ' ' + & = % # / ? é]; trackers: every assignment of 0..3 tiers with 1..2 URLs each drawn from 4 URLs containing query and escape characters; peers: 6 lists of 0..5 host:port strings, among them an IPv6 zone (percent sign), and hosts containing & # space + = and a non-ASCII letter
 package magnet
 
 // Bounded stand-in (URL escaping and parsing are library string code, outside the
@@ -44,7 +44,7 @@ func TestRainvcBounded(t *testing.T) {
 		}
 	}
 	tierSets = append(tierSets, [][]string{tiers[1], tiers[0], tiers[5]})
-	peerSets := [][]string{nil, {"1.2.3.4:5"}, {"1.2.3.4:5", "[::1]:80"}}
+	peerSets := [][]string{nil, {"1.2.3.4:5"}, {"1.2.3.4:5", "[::1]:80"}, {"[fe80::1%eth0]:6881"}, {"peer.example.com:6881", "a&b.example:1"}, {"h#x:1", "h x:2", "h+x:3", "h=x:4", "é:5"}}
 	asSet := func(s []string) string {
 		c := append([]string(nil), s...)
 		sort.Strings(c)
